@@ -196,6 +196,72 @@ func genC12LimitWindow(seed uint64, r *rng) *Scenario {
 	return sc
 }
 
+// Sibling families: Regexps that agree in everything a coarse cache key might look at (group count, options,
+// pattern length, first characters) but differ in meaning, used with the same inputs and replacement strings.
+var siblingFamilies = []struct {
+	pats   []ReSpec
+	inputs []string
+	repls  []string
+}{
+	{[]ReSpec{{Pat: `(?<year>\d{4})-(?<mon>\d\d)`}, {Pat: `(?<mon>\d{2})/(?<year>\d\d)`}, {Pat: `(?<mon>\d{4})-(?<year>\d\d)`}},
+		[]string{"2024-05 x 1999-12", "05/24 and 12/99", "2024-05", "no match", "12/99 2024-05-17"}, []string{"${year}", "y=${year};", "${mon}/${year}", "$1", "$2-$1", "${year}${year}"}},
+	{[]ReSpec{{Pat: `(?<first>a)(b)`}, {Pat: `(?<first>a)(b)`, KeepOrder: true}, {Pat: `(a)(?<first>b)`}, {Pat: `(a)(?<first>b)`, KeepOrder: true}},
+		[]string{"ab", "xabab", "ba ab", "", "aabb"}, []string{"<${first}>", "$1", "$2", "[$1$2]", "${first}$1"}},
+	{[]ReSpec{{Pat: `(a)(b)`}, {Pat: `(?<3>a)(b)`}, {Pat: `(?<2>a)(b)`}, {Pat: `(a)(?<3>b)`}},
+		[]string{"ab", "abab", "xaby", "b a", ""}, []string{"[$2]", "{$3}", "$1|$2|$3", "$2$2", "${3}"}},
+	{[]ReSpec{{Pat: `(\w+)@(\w+)`}, {Pat: `(\w+)#(\w+)`}, {Pat: `(\w+)@(\d+)`}, {Pat: `(\w+)@(\w+)`, Opts: oRTL}},
+		[]string{"bob@example", "amy#corp x@y", "id@42 a@b", "@", "bob@example amy#corp"}, []string{"$2:$1", "<$0>", "$1", "$2", "$1@$2"}},
+	{[]ReSpec{{Pat: `(?<x>a+)(?<y>b+)`}, {Pat: `(?<y>a+)(?<x>b+)`}, {Pat: `(?<x>a+)(?<y>b*)`}, {Pat: `(?<x>a+)(?<y>b+)`, Opts: oI}},
+		[]string{"aabb", "ab aaab", "AABB ab", "b", "aaa"}, []string{"${x}${y}", "${y}-${x}", "$1", "${x}", "y:${y}"}},
+}
+
+// genC12Siblings: the same calls, with the same inputs and replacement strings, on several Regexps of one
+// sibling family, and calls with inputs of equal length and equal first rune on one Regexp: whatever is
+// remembered across calls must be keyed by everything the result depends on.
+func genC12Siblings(seed uint64, r *rng) *Scenario {
+	sc := &Scenario{Prop: "C12", Seed: seed, SchedSeed: mix64(seed, 12), OpStepCap: scriptOpCap, Mode: "siblings", PeriodNs: int64(time.Millisecond)}
+	cfg := vsim.Config{Policy: vsim.Fair, Quantum: 100 + r.i64(900), MaxSteps: 400_000_000, PoolMode: []int{vsim.PoolLIFO, vsim.PoolRandom, vsim.PoolFIFO}[r.n(3)], MissProb: uint32(r.n(200))}
+	fam := siblingFamilies[r.n(len(siblingFamilies))]
+	for _, s := range fam.pats {
+		if r.chance(3, 4) {
+			if v := pristine(s, &Op{Kind: OpGroupInfo}, scriptOpCap); !(len(v.res) > 8 && v.res[:8] == "COMPILE:") {
+				sc.Res = append(sc.Res, s)
+			}
+		}
+	}
+	if len(sc.Res) < 2 {
+		return sc
+	}
+	kinds := []int{OpReplace, OpReplace, OpReplace, OpFindString, OpFindAllString, OpSplit, OpCompatAllSubmatch, OpReplaceFunc, OpMatchString, OpGroupInfo, OpCompatSubmatchIndex}
+	cl := Client{Cost: int64(200 + r.n(800))}
+	for n := 8 + r.n(24); n > 0; n-- {
+		in := fam.inputs[r.n(len(fam.inputs))]
+		if r.chance(1, 4) && len(in) > 1 {
+			// same length, same first rune, different content
+			b := []byte(in)
+			k := 1 + r.n(len(b)-1)
+			b[k] = "ab12-/@#x "[r.n(10)]
+			in = string(b)
+		}
+		op := Op{Kind: kinds[r.n(len(kinds))], Re: r.n(len(sc.Res)), In: lit(in), N: -1, Repl: fam.repls[r.n(len(fam.repls))], TimeoutNs: -1}
+		if v := pristine(sc.Res[op.Re], &op, scriptOpCap); v.capped {
+			continue
+		}
+		cl.Ops = append(cl.Ops, op)
+		if r.chance(1, 3) {
+			// the same call on a sibling right away
+			twin := op
+			twin.Re = r.n(len(sc.Res))
+			cl.Ops = append(cl.Ops, twin)
+		}
+	}
+	sc.Clients = []Client{cl}
+	cfg.Alphabet = alphabetOf(sc)
+	sc.Cfg = cfg
+	nameOps(sc)
+	return sc
+}
+
 // genC12DeepStack: a call that grows the interpreter's stacks to tens of thousands of slots (a long input on a
 // pattern whose backtracking depth grows with it), surrounded by ordinary calls on the same Regexp: whatever a
 // runner does with very large stacks when it is recycled must not show in later calls.
@@ -276,6 +342,9 @@ func genC12(seed uint64, tier string) *Scenario {
 	}
 	if r.chance(1, 12) {
 		return genC12DeepStack(seed, r)
+	}
+	if r.chance(1, 10) {
+		return genC12Siblings(seed, r)
 	}
 	sc := &Scenario{Prop: "C12", Seed: seed, SchedSeed: mix64(seed, 12), OpStepCap: scriptOpCap}
 	p := int64(time.Millisecond)
